@@ -104,6 +104,19 @@ def _max_uid(t):
     return best
 
 
+def proves_fresh(ex, pc, at, alive):
+    """is the written object provably not alive in the heap whose alive-array is `alive`?"""
+    from . import verify
+    s = smt.new_solver(3000)
+    goal = z3.Not(alive[at])
+    for a in verify.relevant_axioms(pc, goal):
+        s.add(a)
+    for a in pc:
+        s.add(a)
+    s.add(alive[at])
+    return s.check() == z3.unsat
+
+
 def by_names(log):
     return {e[0] for e in log}
 
@@ -114,24 +127,28 @@ def refine_frame(ex, st, pre_heap, log, uid0):
     since the havoc (serial >= uid0): it then depends only on state the loop does not change."""
     from .symexec import role_of, owner_of
     alive_pre = pre_heap.get("$alive")
+    summary = {}
+    ex.last_frame_summary = summary
     if alive_pre is not None and "$alive" in by_names(log):
         # allocation only ever adds objects
         o = z3.Int(f"lo!{next(_uid)}")
         st.assume(smt.forall([o], z3.Implies(alive_pre[o], st.heap["$alive"][o]), [alive_pre[o]]))
         st.assume(smt.forall([o], z3.Implies(alive_pre[o], st.heap["$alive"][o]), [st.heap["$alive"][o]]))
     by_heap = {}
-    for (name, at, hint, fresh_obj, preds) in log:
-        by_heap.setdefault(name, []).append((at, hint, fresh_obj, preds))
+    for (name, at, hint, fresh_obj, preds, pc) in log:
+        by_heap.setdefault(name, []).append((at, hint, fresh_obj, preds, pc))
     for name, entries in by_heap.items():
         if name == "$alive" or name not in pre_heap:
             continue
         o = z3.Int(f"lo!{next(_uid)}")
         conds = []
         ok = True
-        for (at, hint, fresh_obj, preds) in entries:
+        for (at, hint, fresh_obj, preds, pc) in entries:
             if fresh_obj and ex.entry_alive is not None:
-                # an object allocated during the current activation: not alive at function entry
-                conds.append(z3.Not(ex.entry_alive[o]))
+                if at is not None and alive_pre is not None and _max_uid(at) >= uid0:
+                    conds.append(z3.Not(alive_pre[o]))          # allocated by the loop body itself
+                else:
+                    conds.append(z3.Not(ex.entry_alive[o]))     # allocated earlier in the current activation
                 continue
             if preds is not None:
                 pl, ovar = preds
@@ -147,9 +164,14 @@ def refine_frame(ex, st, pre_heap, log, uid0):
                 conds.append(o == at)
             elif name == "$seq" and hint is not None and hint.kind == "list" and hint.name != "Any":
                 conds.append(role_of(o) == ex.rid(hint.name))
+            elif pc is not None and alive_pre is not None and proves_fresh(ex, pc, at, alive_pre):
+                conds.append(z3.Not(alive_pre[o]))      # written object was allocated during the loop
+            elif pc is not None and ex.entry_alive is not None and proves_fresh(ex, pc, at, ex.entry_alive):
+                conds.append(z3.Not(ex.entry_alive[o]))
             else:
                 ok = False
                 break
+        summary[name] = (conds if ok else None, o)
         if not ok:
             continue
         new = st.heap[name]
@@ -286,28 +308,52 @@ def for_over(ex, stmt, st, it):
     names = [n for n in assigned_names(stmt.body, st.env) + assigned_names([ast.Expr(stmt.target)])]
     # invariant at entry
     seqsv = SV("seq", S0, Ty("seq", args=[ety] if ety else []))
-    check_invs(ex, st, invs, {"_i": SV("int", z3.IntVal(0), T("int")), "_it": seqsv}, lk + "-init", stmt)
+    ex.loop_alive.append(ex.named_heap(st, "$alive"))
+    try:
+        check_invs(ex, st, invs, {"_i": SV("int", z3.IntVal(0), T("int")), "_it": seqsv}, lk + "-init", stmt)
+    finally:
+        ex.loop_alive.pop()
     # havoc
     ex.named_heap(st, "$alive")
     pre_heap = dict(st.heap)
     pre_heap["$alive"] = ex.named_heap(st, "$alive")
+    ex.loop_alive.append(pre_heap["$alive"])
+    try:
+        return _for_over2(ex, stmt, st, it, S0, ety, q, k, invs, lk, heap_list, body_from, writes, ends, names, seqsv, pre_heap)
+    finally:
+        ex.loop_alive.pop()
+
+
+def _for_over2(ex, stmt, st, it, S0, ety, q, k, invs, lk, heap_list, body_from, writes, ends, names, seqsv, pre_heap):
     uid0 = next(_uid)
     havoc_locals(ex, st, names, ends)
     havoc_writes(ex, st, writes)
     i = fresh("_i", I)
     st.assume(z3.And(0 <= i, i <= Len(S0)))
     isv = SV("int", i, T("int"))
+    assume_invs(ex, st, invs, {"_i": isv, "_it": seqsv})
+    nomutate_by_frame = False
     if "*" not in writes:
         _, _, log = trial(ex, st, lambda s: (s.assume(i < Len(S0)), body_from(s, i))[1])
         refine_frame(ex, st, pre_heap, log, uid0)
-    assume_invs(ex, st, invs, {"_i": isv, "_it": seqsv})
+        if heap_list is not None:
+            ent = ex.last_frame_summary.get("$seq")
+            if "$seq" not in by_names(log):
+                nomutate_by_frame = True        # the body writes no list at all
+            elif ent is not None and ent[0] is not None:
+                # every list the body writes satisfies `written(o)`; the iterated list must not
+                conds, ov = ent
+                written = z3.Or([z3.substitute(c, (ov, heap_list.t)) for c in conds]) if conds else z3.BoolVal(False)
+                ex.oblige(st, lk + "-nomutate", "iterated-list-is-not-among-the-lists-the-body-writes", stmt,
+                          z3.And(pre_heap["$alive"][heap_list.t], z3.Not(written)))
+                nomutate_by_frame = True
     out = []
     # iteration path
     s_it = st.copy()
     s_it.assume(i < Len(S0))
     for s2, oc in body_from(s_it, i):
         if oc is None or oc[0] == "continue":
-            if heap_list is not None:
+            if heap_list is not None and not nomutate_by_frame:
                 ex.oblige(s2, lk + "-nomutate", "iterated-list-unchanged", stmt,
                           ex.heap_get(s2, "$seq")[heap_list.t] == S0)
             check_invs(ex, s2, invs, {"_i": SV("int", i + 1, T("int")), "_it": seqsv}, lk + "-step", stmt)
